@@ -99,6 +99,14 @@ func c17r1(c *Ctx, id string) {
 	ad := w.Method("config", "Dcp", "ApplyDefaults")
 	c.need(ad != nil, id, "config.(*Dcp).ApplyDefaults")
 	callees := w.syncCallees(ad, 1, false)
+	// the stores may sit one level further down (a step split into two); set-when-unset helpers are judged at their
+	// call sites, not as stores through a pointer
+	scan := map[*ssa.Function]bool{}
+	for f := range w.syncCallees(ad, 2, false) {
+		if pkgOfFn(f) == pkgOfFn(ad) && !defaultSetter(w, f) {
+			scan[f] = true
+		}
+	}
 	n := 0
 	defaulted := map[string]*ssa.BasicBlock{}
 	type envStore struct {
@@ -107,7 +115,7 @@ func c17r1(c *Ctx, id string) {
 		target string
 	}
 	var envs []envStore
-	for fn := range callees {
+	for fn := range scan {
 		if fn == ad {
 			continue
 		}
